@@ -13,6 +13,9 @@
 (***************************************************************************)
 EXTENDS Naturals, Sequences, FiniteSets, TLC, TLCExt, Json, IOUtils
 Rec == ndJsonDeserialize(IOEnv.TRACE)
+(* what ProbeMech.tla can settle in, per vector of start ticks (minimum 0): lines [start, rens] computed by TLC from     *)
+(* MCProbeOutcomes (an empty file: no comparison)                                                                        *)
+Outc == IF "OUTCOMES" \in DOMAIN IOEnv THEN ndJsonDeserialize(IOEnv.OUTCOMES) ELSE <<>>
 VARIABLES l, scen, holds, orig, viol, hits
 vars == <<l, scen, holds, orig, viol, hits>>
 Ev == Rec[l]
@@ -31,8 +34,25 @@ Iter == /\ Ev.e = "iter"
                                            host |-> SrvOf(Ev.sent[CHOOSE i \in anns : TRUE]).t.k])
         /\ UNCHANGED <<scen, orig, viol, hits>>
 Names == /\ Ev.e = "names"
-         /\ orig' = [inst |-> Ev.instk[1], host |-> Ev.hostk[1], dotted |-> Ev.inst[1] # Ev.instu]
+         /\ orig' = [inst |-> Ev.instk[1], host |-> Ev.hostk[1], dotted |-> Ev.inst[1] # Ev.instu, cand |-> Ev.instk]
          /\ UNCHANGED <<scen, holds, viol, hits>>
+(* ---- conformance of the outcome with the mechanism model (family probecases) ---- *)
+(* A real daemon starts probing within two ticks of its start tick (seeded jitter below one tick, the crate's own random  *)
+(* delay below another): the outcome must be one that ProbeMech.tla can settle in for one of the vectors start + {0,1}^n  *)
+(* (shifted so that the earliest claimant starts at 0).  Daemon k is the model's claimant of rank k + 1: its records       *)
+(* (port 8000 + k, who=k, address .1k) are lexicographically later than those of the daemons before it.                    *)
+MinSeq(s) == CHOOSE m \in {s[i] : i \in 1..Len(s)} : \A i \in 1..Len(s) : m <= s[i]
+Norm(s) == [i \in 1..Len(s) |-> s[i] - MinSeq(s)]
+Bits(n) == [1..n -> {0, 1}]
+Lookup(s) == {Outc[j].rens : j \in {x \in 1..Len(Outc) : Outc[x].start = s}}
+Admissible(start) ==
+  LET vs == {Norm([i \in 1..Len(start) |-> start[i] + b[i]]) : b \in Bits(Len(start))}
+  IN IF \E v \in vs : Lookup(v) = {} THEN {}     \* outside the enumerated vectors: not judged
+     ELSE UNION {UNION {{r[i] : i \in 1..Len(r)} : r \in Lookup(v)} : v \in vs}
+IndexIn(seq, x) == IF \E i \in 1..Len(seq) : seq[i] = x THEN (CHOOSE i \in 1..Len(seq) : seq[i] = x) - 1 ELSE 99
+ModelOn == /\ "start" \in DOMAIN Ev /\ ~orig.dotted /\ Len(Outc) > 0
+           /\ \A d \in 0..(Ev.n - 1) : d \in DOMAIN holds
+           /\ Admissible(Ev.start) # {}
 Outcome ==
   /\ Ev.e = "outcome"
   /\ LET ds == 0..(Ev.n - 1)
@@ -54,9 +74,15 @@ Outcome ==
                                                /\ (Ev.same_host => Cardinality({d \in ds : hosts[d] = orig.host}) = 1),
                          <<why, insts, hosts, orig>>)
                 ELSE {})
+          \cup (IF ModelOn
+                THEN V("C08.outcome-model", [i \in 1..Ev.n |-> IndexIn(orig.cand, insts[i - 1])] \in Admissible(Ev.start),
+                       <<"the names the daemons ended up with are not an outcome the mechanism model can settle in for these start times",
+                         Ev.start, [i \in 1..Ev.n |-> IndexIn(orig.cand, insts[i - 1])], Admissible(Ev.start)>>)
+                ELSE {})
   /\ hits' = hits \cup {"C08.outcome"}
+                  \cup (IF ModelOn THEN {"C08.outcome-model"} ELSE {})
   /\ UNCHANGED <<scen, holds, orig>>
-Reset == /\ Ev.e = "reset" /\ scen' = Ev.scen.id /\ holds' = <<>> /\ orig' = [inst |-> "", host |-> "", dotted |-> FALSE]
+Reset == /\ Ev.e = "reset" /\ scen' = Ev.scen.id /\ holds' = <<>> /\ orig' = [inst |-> "", host |-> "", dotted |-> FALSE, cand |-> <<>>]
          /\ UNCHANGED <<viol, hits>>
 Skip == /\ Ev.e \notin {"iter", "names", "outcome", "reset"} /\ UNCHANGED <<scen, holds, orig, viol, hits>>
 Init == l = 1 /\ scen = 0 /\ holds = <<>> /\ orig = [inst |-> "", host |-> "", dotted |-> FALSE] /\ viol = {} /\ hits = {}
